@@ -102,7 +102,10 @@ func main() {
 			}
 			return false
 		},
-		Gen:   func(r *hx.RNG, tr *hx.Trace) fsmx.Case { return fsmx.GenCase(r, "c21", tr) },
-		Extra: sweep,
+		Gen: func(r *hx.RNG, tr *hx.Trace) fsmx.Case { return fsmx.GenCase(r, "c21", tr) },
+		Extra: func(cfg *hx.Cfg, do func(id string, c fsmx.Case)) {
+			sweep(cfg, do)
+			fsmx.ExitProduct(do, "SFE", true)
+		},
 	})
 }
